@@ -15,13 +15,13 @@ import (
 	"github.com/emersion/go-message/textproto"
 	"github.com/emersion/go-smtp"
 	"github.com/foxcpp/go-mockdns"
-	"github.com/foxcpp/maddy/internal/smtpconn/pool"
-	"github.com/foxcpp/maddy/internal/target/remote"
 	"github.com/foxcpp/maddy/framework/buffer"
 	"github.com/foxcpp/maddy/framework/config"
 	"github.com/foxcpp/maddy/framework/log"
 	"github.com/foxcpp/maddy/framework/module"
+	"github.com/foxcpp/maddy/internal/smtpconn/pool"
 	"github.com/foxcpp/maddy/internal/target/queue"
+	"github.com/foxcpp/maddy/internal/target/remote"
 	tsmtp "github.com/foxcpp/maddy/internal/target/smtp"
 	"github.com/foxcpp/maddy/verifharness/scripted"
 	"github.com/foxcpp/maddy/verifharness/vtrace"
@@ -313,7 +313,8 @@ func runReal(t *testing.T, b Behaviour, w *bufio.Writer, hops map[hopKey]*hop, d
 	}
 	defer os.RemoveAll(dir)
 	useIdn = b.Cfg.Idn
-	defer func() { useIdn = false }()
+	caseVar = b.Cfg.CaseVar
+	defer func() { useIdn = false; caseVar = false }()
 	tr := vtrace.New(w, b.ID)
 	tr.Emit("Cfg", vtrace.Ev{"partial": b.Cfg.Partial, "bounce": b.Cfg.Bounce, "nullSender": b.Cfg.NullSender,
 		"mt": b.Cfg.Mt, "list": b.Cfg.List, "rw": []string{}, "utf8": b.Cfg.Utf8, "chain": false,
@@ -330,16 +331,16 @@ func runReal(t *testing.T, b Behaviour, w *bufio.Writer, hops map[hopKey]*hop, d
 		rt := remote.VerifRemoteNewTarget(remote.VerifRemoteConfig{
 			Hostname: "mx.example.org",
 			Resolver: &mockdns.Resolver{Zones: map[string]mockdns.Zone{
-				"example.org.":           {MX: []net.MX{{Host: "hop.example.org.", Pref: 10}}},
-				"xn--e1afmkfd.example.":  {MX: []net.MX{{Host: "hop.example.org.", Pref: 10}}},
-				"пример.example.":        {MX: []net.MX{{Host: "hop.example.org.", Pref: 10}}},
-				"hop.example.org.":       {A: []string{"127.0.0.1"}},
+				"example.org.":          {MX: []net.MX{{Host: "hop.example.org.", Pref: 10}}},
+				"xn--e1afmkfd.example.": {MX: []net.MX{{Host: "hop.example.org.", Pref: 10}}},
+				"пример.example.":       {MX: []net.MX{{Host: "hop.example.org.", Pref: 10}}},
+				"hop.example.org.":      {A: []string{"127.0.0.1"}},
 			}},
 			Dialer: func(ctx context.Context, network, _ string) (net.Conn, error) {
 				var d net.Dialer
 				return d.DialContext(ctx, "tcp4", h.l.Addr().String())
 			},
-			Pool: pool.Config{MaxKeys: 100, MaxConnsPerKey: 5, MaxConnLifetimeSec: 150, StaleKeyLifetimeSec: 300},
+			Pool:           pool.Config{MaxKeys: 100, MaxConnsPerKey: 5, MaxConnLifetimeSec: 150, StaleKeyLifetimeSec: 300},
 			ConnReuseLimit: 1, ConnectTimeout: 30 * time.Second, CommandTimeout: 30 * time.Second,
 			SubmissionTimeout: 30 * time.Second, Log: log.Logger{Out: log.NopOutput{}},
 		})
